@@ -171,8 +171,14 @@ func runC10(c *Ctx, d c10Desc) {
 	expectFirst := "ok"
 
 	if d.Phase == "init" {
+		before := hk.Arrived()["invoke.reserved"]
 		first = w.E.InvokeAsync(payload, vh.InvokeOpts{})
-		time.Sleep(2 * time.Millisecond)
+		// the extra callers must arrive AFTER the first one holds the reservation (on a loaded machine its
+		// goroutine may take longer than any fixed sleep to get there)
+		for dl := time.Now().Add(3 * time.Second); hk.Arrived()["invoke.reserved"] == before && time.Now().Before(dl); {
+			time.Sleep(50 * time.Microsecond)
+		}
+		time.Sleep(time.Millisecond)
 		extras = extra()
 		// now let init finish
 		parkExts()
